@@ -336,3 +336,111 @@ Proof.
     rewrite E in Hx. destruct i as [|[|[|i]]]; cbn in Hx; try (destruct i; discriminate);
       inversion Hx; subst x; cbn in Hf; inversion Hf. reflexivity.
 Qed.
+
+(* ================= completeness (partial) ================= *)
+Lemma tc_adds sts l : NoDup l -> forall st st', foldM (tc_step sts) l st = OK st' -> forall i q, In i l ->
+  nth i (snd st) None = Some q -> nth i sts false = false -> In (FConst i q) (fst st').
+Proof.
+  induction 1 as [|j r Hj N IH]; intros st st' H i q Hi Eq Hs; [contradiction|]. cbn in H.
+  apply bind_ok in H. destruct H as (s1 & H1 & H).
+  destruct Hi as [<-|Hi].
+  - unfold tc_step in H1. rewrite Eq, Hs in H1. apply bind_ok in H1. destruct H1 as (e & He & H1).
+    inversion H1. subst s1. unfold add_eq in He. cbn [feq_kind] in He.
+    destruct (defined (fst st) (Z.of_nat j)); [discriminate|]. inversion He. subst e.
+    apply (tc_incl _ _ _ _ H). cbn. now left.
+  - assert (Nij : j <> i) by (intros ->; contradiction).
+    apply (IH _ _ H i q Hi); auto.
+    unfold tc_step in H1. destruct (nth j (snd st) None).
+    + destruct (nth j sts false). { inversion H1; subst; auto. }
+      apply bind_ok in H1. destruct H1 as (e & _ & H1). inversion H1. cbn. rewrite nth_upd_neq; auto.
+    + destruct (nth j sts false); [discriminate|]. inversion H1; subst; auto.
+Qed.
+
+Lemma chain_nodup' init m : chain_ok init m -> NoDup (map fst m).
+Proof.
+  induction m as [|[t s] r IH]; cbn; intros H; [constructor|]. destruct H as (Hr & Hk & _). constructor; auto.
+Qed.
+
+Lemma lookup_of_in m t s : NoDup (map fst m) -> In (t, s) m -> lookup m t = Some s.
+Proof.
+  induction m as [|[a b] r IH]; intros N Hm; [contradiction|]. rewrite lookup_cons. cbn in N.
+  inversion N as [|? ? Hn N']. subst. destruct Hm as [E|Hm'].
+  - inversion E. subst. rewrite Nat.eqb_refl. reflexivity.
+  - destruct (Nat.eqb a t) eqn:Eq; [|auto]. apply Nat.eqb_eq in Eq. subst a. exfalso. apply Hn.
+    apply in_map_iff. exists (t, s). auto.
+Qed.
+
+Definition rep_of (m : list (nat * nat)) (i : nat) : nat :=
+  match rep (length m) m i with Some r => r | None => i end.
+
+Section Complete.
+  Variable fsem : Z -> list R -> option R.
+  Variable psem : R -> R -> option R.
+  Variable csem : Z -> option R.
+
+  (* schema guarantee (cellml_1_0.rng, 3.4.3.8): no initial value on a variable with an `in` interface *)
+  Definition init_no_in (f : flat) : Prop := forall x, In x (f_vars f) -> finit x <> None -> has_in x = false.
+
+  Theorem flatten_complete_partial d f nu de : load d = OK f -> init_no_in f ->
+    flat_sat fsem psem csem nu de d f ->
+    let m := rev (f_map f) in
+    doc_sat fsem psem csem (fun i => nu (rep_of m i)) (fun i j => de (rep_of m i) (rep_of m j)) d /\
+    (forall i, lookup m i = None -> rep_of m i = i).
+  Proof.
+    intros H Hin Hsat m. pose proof (no_half_load _ _ H) as (_ & Heqs & _).
+    apply load_stages in H. pose proof (s_flat _ _ H) as Ef. subst f. cbn [f_map f_vars f_eqs] in *.
+    subst m. rewrite rev_involutive in *.
+    set (vars := st_vars d) in *. set (cs := st_cs d) in *. set (m := cmap cs) in *.
+    pose proof (connect_inv _ _ _ _ _ _ (s_dirs _ _ H) (s_conn _ _ H)) as CI. fold vars cs in CI.
+    assert (T : forall i, exists r, rep (length m) m i = Some r) by (apply (rep_terminates _ _ (proj1 CI))).
+    assert (Rnk : forall i, lookup m i = None -> rep_of m i = i).
+    { intros i E. unfold rep_of. destruct (length m); cbn; rewrite E; reflexivity. }
+    split; [|exact Rnk]. split; [|split].
+    - (* component equations *)
+      intros cq Hcq. specialize (Heqs cq Hcq). apply Hsat in Heqs. unfold flat_eq in Heqs. cbn [feq_sat] in Heqs.
+      destruct Heqs as (xv & E1 & E2). exists xv.
+      set (g := rename_of vars m (fst cq)) in *.
+      assert (Hv : forall n, doc_vs (fun i => nu (rep_of m i)) vars (fst cq) n = flat_vs nu (g n)).
+      { intros n. unfold doc_vs, g, rename_of, resolve, rep_of. destruct (vidx vars (fst cq) n) as [i|]; [|reflexivity].
+        destruct (T i) as (r & Er). cbn [option_map]. rewrite !Er. rewrite flat_vs_of. reflexivity. }
+      assert (Hd : forall y t, doc_ds (fun i j => de (rep_of m i) (rep_of m j)) vars (fst cq) y t = flat_ds de (g y) (g t)).
+      { intros y t. unfold doc_ds, g, rename_of, resolve, rep_of.
+        destruct (vidx vars (fst cq) y) as [i|].
+        - destruct (T i) as (ri & Ei). rewrite Ei. destruct (vidx vars (fst cq) t) as [j|].
+          + destruct (T j) as (rj & Ej). rewrite Ej. rewrite flat_ds_of. reflexivity.
+          + unfold flat_ds. cbn. rewrite orb_true_r. reflexivity.
+        - unfold flat_ds. cbn. reflexivity. }
+      rewrite <- !(eval_ren fsem psem csem _ g (flat_vs nu) (flat_ds de) _ _ Hv Hd). auto.
+    - (* connections: both ends have the same representative *)
+      intros s t Hw.
+      destruct (stages_schedule _ _ H) as (p & Pp & Hr). fold vars cs in Hr.
+      assert (Hp : In (s, t) p) by (eapply Permutation_in; [apply Permutation_sym; exact Pp|exact Hw]).
+      destruct (run_processed _ _ _ _ Hr _ Hp) as (Hm & _). cbn [fst snd] in Hm. fold m in Hm.
+      assert (N : NoDup (map fst m)) by (eapply chain_nodup'; apply CI).
+      assert (El : lookup m t = Some s) by (apply lookup_of_in; auto).
+      assert (E : rep_of m t = rep_of m s).
+      { unfold rep_of. destruct (T t) as (rt & Et), (T s) as (rs & Es). rewrite Et, Es.
+        apply rep_more in Et. cbn [rep] in Et. rewrite El in Et. congruence. }
+      unfold same_qty. rewrite E. split; auto.
+    - (* initial values of non-states *)
+      intros i x q Hx Hf Hs. fold vars in Hx.
+      pose proof (s_tc _ _ H) as Tc. unfold transform_constants in Tc. fold vars in Tc.
+      assert (Li : (i < length vars)%nat) by (apply nth_error_Some; congruence).
+      assert (Hc : In (FConst i q) (fst (st_ei d))).
+      { apply (tc_adds _ _ (seq_NoDup (length vars) 0) _ _ Tc i q).
+        - apply in_seq. lia.
+        - cbn [snd]. rewrite nth_indep with (d' := finit x) by (rewrite map_length; auto).
+          rewrite (map_nth finit vars x i). rewrite (nth_error_nth _ _ _ Hx). exact Hf.
+        - rewrite (nth_map_seq (is_state (st_eqs d)) (length vars) i false Li). exact Hs. }
+      apply in_rev in Hc. apply Hsat in Hc. cbn [feq_sat] in Hc. unfold num in Hc.
+      assert (Hni : has_in x = false).
+      { apply Hin; [eapply nth_error_In; eauto|congruence]. }
+      assert (Ek : lookup m i = None).
+      { apply lookup_notin. intros K. pose proof (chain_keys_init _ _ (proj1 CI) _ K) as Z0.
+        rewrite (init_asg_nth _ 0 i x Hx), Hni in Z0. discriminate. }
+      rewrite (Rnk i Ek). subst vars. cbn [f_vars] in Hc. unfold uv_of in Hc. rewrite Hx in Hc.
+      pose proof (scaleR_pos (fuv x)) as P.
+      apply (Rmult_eq_compat_r (scaleR (fuv x))) in Hc. unfold Rdiv in Hc.
+      rewrite Rmult_assoc, Rinv_l, Rmult_1_r in Hc by lra. exact Hc.
+  Qed.
+End Complete.
